@@ -182,6 +182,20 @@ pub fn run_extract(
     cancel_after: Option<usize>,
     ctx: &mut Ctx,
 ) -> Result<(), Violation> {
+    let r = run_extract_inner(members, globs, uniq, cancel_after, ctx);
+    if std::env::var("VERIF_KEEP").is_err() {
+        let _ = std::fs::remove_dir_all(root_dir());
+    }
+    r
+}
+
+fn run_extract_inner(
+    members: &[Member],
+    globs: &[String],
+    uniq: u64,
+    cancel_after: Option<usize>,
+    ctx: &mut Ctx,
+) -> Result<(), Violation> {
     let root = root_dir();
     let sandbox = root.join("sandbox");
     let tmp = sandbox.join("tmp");
